@@ -4,6 +4,25 @@ import torch
 import tntorch as tn
 
 
+def _norm(t):
+    """
+    Frobenius norm of a formula, computed on an orthogonalized copy. (The inner-product contraction used by
+    :func:`tn.norm()` loses about 1e-6 to cancellation on unrounded formulas of rank ~100, which is the threshold of
+    the predicates below.)
+
+    :param t: a :class:`Tensor`
+
+    :return: a scalar
+    """
+
+    t = t.clone()
+    t.orthogonalize(0)
+    core = t.cores[0]
+    if t.Us[0] is not None:
+        core = torch.einsum("ijk,aj->iak", (core, t.Us[0]))
+    return torch.norm(core)
+
+
 def true(N):
     """
     Create a formula (N-dimensional tensor) that is always true.
@@ -130,7 +149,7 @@ def relevant_symbols(t):
     return [
         n
         for n in range(t.dim())
-        if tn.norm(t2[[slice(1, 3)] * n + [0] + [slice(1, 3)] * (t.dim() - n - 1)])
+        if _norm(t2[[slice(1, 3)] * n + [0] + [slice(1, 3)] * (t.dim() - n - 1)])
         > 1e-6
     ]
 
@@ -209,7 +228,7 @@ def is_tautology(t):
     :return: True if `t` is a tautology; False otherwise
     """
 
-    return bool(tn.norm(~t) <= 1e-6)
+    return bool(_norm(~t) <= 1e-6)
 
 
 def is_contradiction(t):
@@ -221,7 +240,7 @@ def is_contradiction(t):
     :return: True if `t` is a contradiction; False otherwise
     """
 
-    return bool(tn.norm(t) <= 1e-6)
+    return bool(_norm(t) <= 1e-6)
 
 
 def is_satisfiable(t):
